@@ -589,6 +589,7 @@ func checkC06(w *World, r *Report) {
 	c06Constraint(w, r, ra)
 	c06Bookkeeping(w, r, ra)
 	c06ChangeDetection(w, r, ra)
+	c06NodeRemoval(w, r, ra)
 }
 
 func sharedStateStores(fn *ssa.Function, ra *repoAnchors) []*ssa.Store {
@@ -1037,4 +1038,48 @@ func c06ChangeDetection(w *World, r *Report, ra *repoAnchors) {
 	// and the hash is what EqualTo compares
 	eq := w.Method(ra.t, "FindRule")
 	_ = eq
+}
+
+// c06NodeRemoval (C06.6): a tree node is removed from its parent only when it holds no value any
+// more. Several rules (of one rule set) may share a path expression; deleting one of them must
+// leave the node, and with it the others' routes, in place.
+func c06NodeRemoval(w *World, r *Report, ra *repoAnchors) {
+	ri := r.Rule("C06.6", 2, "while deleting, a child node is detached from the tree only behind a check that it holds no values any more (rules sharing a path expression survive the removal of one of them)")
+	del := treeMethod(w, ra, "delNode")
+	if del == nil {
+		r.Undecided(ri, "tree method delNode not found")
+		return
+	}
+	r.Analysed(w.FnName(del))
+	n := 0
+	for _, ci := range callsIn(del) {
+		c, ok := ci.(*ssa.Call)
+		if !ok {
+			continue
+		}
+		callee := c.Common().StaticCallee()
+		if callee == nil || !strings.HasPrefix(callee.Name(), "deleteChild") || len(c.Common().Args) < 2 {
+			continue
+		}
+		n++
+		child := c.Common().Args[1]
+		okG := onlyVia(del, c.Block(), func(f Fact) bool {
+			l, kind := lenFact(f)
+			if l == nil || kind != "empty" {
+				return false
+			}
+			// len(<child>.values)
+			root, p := accessPath(l)
+			if len(p) == 0 || p[len(p)-1] != "values" {
+				return false
+			}
+			cr, _ := accessPath(child)
+			return root == cr || sameValue(root, child) || sameExpr(root, child)
+		})
+		r.Ob(ri, fmt.Sprintf("%s|deleteChild#%d", w.FnName(del), n), c.Pos(), okG,
+			"a child node is detached although it may still hold values: all rules sharing that path expression lose their route when one of them is removed or changed")
+	}
+	if n == 0 {
+		r.Undecided(ri, "delNode never detaches a child")
+	}
 }
